@@ -169,21 +169,44 @@ func runCase(fx *fixture, c Case) (v verdict) {
 	}
 
 	// ---- reference ----
-	ref := computeReference(fx.arBytes,
-		func(key string) ([]byte, bool) {
-			b, ok := served[key]
-			if !ok {
-				// A well-formed tree digest the fixture has no blob for
-				// cannot occur: malformed tree digests never reach here.
-				ev.HarnessError("no Tree blob for %s", key)
+	// The reference of an unaltered CAS only depends on which Trees are
+	// delivered; it is memoised per fixture under that key (a fixture is
+	// used by one goroutine only).
+	memoKey := ""
+	if c.Corrupt == nil && c.ReadErrDir < 0 {
+		memoKey = "v"
+		if !modeValidating(c.Mode) {
+			memoKey = "n"
+		}
+		for _, k := range fx.treeKeyOfDir {
+			if present(k) || c.ServeAbsent {
+				memoKey += "1"
+			} else {
+				memoKey += "0"
 			}
-			if !present(key) && !c.ServeAbsent {
-				return nil, false
-			}
-			return b, true
-		},
-		func(key string) bool { _, ok := readErr[key]; return ok },
-		modeValidating(c.Mode))
+		}
+	}
+	ref := fx.memo[memoKey]
+	if ref == nil {
+		ref = computeReference(fx.arBytes,
+			func(key string) ([]byte, bool) {
+				b, ok := served[key]
+				if !ok {
+					// A well-formed tree digest the fixture has no blob for
+					// cannot occur: malformed tree digests never reach here.
+					ev.HarnessError("no Tree blob for %s", key)
+				}
+				if !present(key) && !c.ServeAbsent {
+					return nil, false
+				}
+				return b, true
+			},
+			func(key string) bool { _, ok := readErr[key]; return ok },
+			modeValidating(c.Mode))
+		if memoKey != "" {
+			fx.memo[memoKey] = ref
+		}
+	}
 	v.nRef = len(ref.referenced)
 
 	allPristine := true
